@@ -196,6 +196,42 @@ fn resolution_templates(ctx: &Ctx) {
     });
 }
 
+// Every plan of four loop turns over {plain, capture, capture then continue,
+// continue, capture then break} x three loop kinds: a closure made in one turn
+// keeps that turn's variables whatever the other turns do and however its own
+// turn ends. Oracle: the reference interpreter.
+fn loop_capture_plans(ctx: &Ctx) {
+    if !crate::backend::worker_available() {
+        ctx.note("in-process back-end unavailable: loop-capture plans skipped (their model is read back from the parser)");
+        return;
+    }
+    let body = "    w := v + 1\n    if b == 1 {\n        fs += [fn () {\n            return [v, w]\n        }]\n    }\n    if b == 2 {\n        fs += [fn () {\n            w += 100\n            return [v, w]\n        }]\n        continue\n    }\n    if b == 3 {\n        continue\n    }\n    if b == 4 {\n        fs += [fn () {\n            return [v, w]\n        }]\n        break\n    }\n    w += 5\n";
+    let tail = "for [_, f] in fs {\n    print(f())\n    print(f())\n}\nprint(\"end\")\n";
+    let mut srcs = vec![];
+    for code in 0..625usize {
+        let plan: Vec<usize> = (0..4).map(|k| (code / 5usize.pow(k)) % 5).collect();
+        let plan_src = format!("plan := [{}]\nfs := []\n", plan.iter().map(|p| p.to_string()).collect::<Vec<_>>().join(", "));
+        srcs.push((format!("{plan_src}for [i, v] in [10, 20, 30, 40] {{\n    b := plan[i]\n{body}}}\n{tail}"), format!("for over a list, plan {plan:?}")));
+        srcs.push((format!("{plan_src}for [i, v] in 10 .. 14 {{\n    b := plan[i]\n{body}}}\n{tail}"), format!("for over a range, plan {plan:?}")));
+        srcs.push((format!("{plan_src}i := 0\nwhile i < 4 {{\n    v := (i + 1) * 10\n    i += 1\n    b := plan[i - 1]\n{body}}}\n{tail}"), format!("while, plan {plan:?}")));
+    }
+    srcs.par_iter().for_each(|(src, note)| {
+        if ctx.stopped() {
+            return;
+        }
+        let prog = match crate::util::model_from_source(src) { Ok(p) => p, Err(_) => { ctx.exclude("loop-capture plan not readable"); return; } };
+        let rr = interp::run(&prog);
+        let e = match &rr.outcome {
+            interp::Outcome::Ok => Expect::ok(rr.out.clone()),
+            interp::Outcome::Err(_) => Expect::err(rr.out.clone()),
+            interp::Outcome::Discard(w) => { ctx.exclude(w); return; },
+        };
+        ctx.label("loop-capture plan");
+        let case = Case{property: "C04".into(), kind: "loop_capture_plan".into(), srcs: vec![src.clone().into_bytes()], pred: Pred::Expect(e), note: note.clone()};
+        ctx.judge(&case, true, Via::Fast, None);
+    });
+}
+
 fn decode(digits: &[u8], wrapped: bool) -> Prog {
     let mut d = Dec{digits, pos: 0, k: 0, fns: 0};
     let mut body = vec![];
@@ -369,6 +405,7 @@ pub fn run(ctx: &Ctx) {
         ctx.mark_exhaustive("all scope-operation digit strings of length 5 and 6");
     }
     resolution_templates(ctx);
+    loop_capture_plans(ctx);
     // (b) random programs, scoping profile.
     let cfg = scoping_cfg();
     let mut big = gen::GenCfg::big();
